@@ -112,9 +112,35 @@ func c06FlatSpans(td *trace.TracesData) []c06FlatSpan {
 	return out
 }
 
+// c06OtlpFaults: the writer reads the value of the service-name attributes it reaches without a nil check; a KeyValue
+// without a value there makes the parser fault (the request is answered with an error, nothing is stored)
+func c06OtlpFaults(merged []*v11.KeyValue) bool {
+	for _, n := range []string{"service.name", "peer.service", "faas.name", "k8s.deployment.name", "process.executable.name"} {
+		_, kv := c06CountKey(merged, n)
+		if kv == nil {
+			continue
+		}
+		if kv.Value == nil {
+			return true
+		}
+		if kv.Value.GetStringValue() != "" {
+			break
+		}
+	}
+	for _, n := range []string{"service.name", "faas.name", "k8s.deployment.name", "process.executable.name"} {
+		if _, kv := c06CountKey(merged, n); kv != nil && kv.Value == nil {
+			return true
+		}
+	}
+	return false
+}
+
 func c06OtlpAccepted(spans []c06FlatSpan) bool {
 	for _, s := range spans {
 		if len(s.span.TraceId) != 16 || len(s.span.SpanId) != 8 {
+			return false
+		}
+		if c06OtlpFaults(append(append([]*v11.KeyValue{}, s.span.Attributes...), s.res...)) {
 			return false
 		}
 	}
@@ -527,9 +553,9 @@ func c06RunOtlp(r *h.Result, rng *h.Rng, n int, tier string) error {
 		if acc {
 			r.Count("otlp:accepted")
 		} else {
-			r.Count("otlp:ids-not-16/8")
+			r.Count("otlp:ids-not-16/8-or-valueless-service-name")
 			if !c.w.Rej {
-				r.Violate("C06/otlp-bad-ids-stored", "OTLP request with a trace/span id that is not 16/8 bytes produced storable rows",
+				r.Violate("C06/otlp-bad-ids-stored", "OTLP request with a trace/span id that is not 16/8 bytes (or a service-name attribute without a value) produced storable rows",
 					c.replay("ids of a wrong length accepted"))
 			}
 		}
@@ -870,11 +896,15 @@ func c06(r *h.Result, rng *h.Rng, tier string, replay string) error {
 		nOtlp, nZip, nPrim = 10000, 10000, 60000
 		nTree, nView, nMixed, nPrim2 = 6000, 3000, 1500, 20000
 	}
-	r.Rule = "otlp: ≤4 resources × ≤5 spans in ≤2 scopes, attribute trees of depth ≤3 over all value kinds, service-name keys over-represented " +
+	r.Rule = "otlp: ≤4 resources × ≤5 spans in ≤2 scopes, attribute trees of depth ≤4 over all value kinds (duplicate keys at every level), service-name keys over-represented " +
 		"(strings, empty strings, other kinds, duplicates between span and resource), 1/7 of the requests with ids of any length; " +
 		"zipkin: 0–5 spans with unique member names in random order, ids of 1–40 hex digits (mixed case), string or numeric times, endpoints, " +
 		"string and non-string tags, every request through both framings, 1/5 of the requests with ill-formed members; " +
-		"non-trivial = at least one span with attributes (otlp) / two spans (zipkin); distinct by document"
+		"zipkin texts (tree level): span texts with duplicate members at every level, optional escapes in names and strings, raw non-UTF-8, lone surrogates, " +
+		"numeric strings, nested values to depth 4 (a corpus case to depth 301), all-0/all-f/empty/over-long ids, annotations, tags ≥ 64 KiB, white space and " +
+		"other data after the object, broken array framing, CRLF line ends; trees taken from jx and fastjson on the same bytes; mixed traces: 2–4 pushes of " +
+		"both protocols sharing a trace id; legacy OTLP/JSON payloads incl. ill-typed ones; " +
+		"non-trivial = at least one span with attributes (otlp) / two spans (zipkin) / one text (tree) / two spans of the trace (mixed); distinct by document"
 	if err := c06RunOtlp(r, rng.Fork(), nOtlp, tier); err != nil {
 		return err
 	}
